@@ -36,7 +36,7 @@ def chk(pid, section, text, note, technique):
 
 CHECKS = {
  "C10": chk("C10", "DESIGN.md §3, §10",
-   "Seeded search over process lifetimes: each lifetime is one fresh interpreter that executes a sequence of generated histories of public-API operations back to back, with rejected operations, sympy-cache flushes, garbage collections and (thorough) interrupts injected at seeded library source lines. Oracles: O2 every live object keeps its fingerprint after every operation; O1/O3-late every operation's dependency closure re-executed on fresh objects in the same, by then well used, process reproduces the history's result; O1/O3 canary operations spliced into every history equal their reference computed alone in a fork of an import-only process. A clean batch is evidence, not proof.",
+   "Seeded search over process lifetimes: each lifetime is one fresh interpreter that executes a sequence of generated histories of public-API operations back to back (so every history runs on top of what its predecessors left in the process), with rejected operations (front end and back end), sympy-cache flushes, garbage collections and (thorough) interrupts injected at seeded library source lines. Oracles: O2 every live object keeps its fingerprint after every operation; O1/O3-late every operation's dependency closure re-executed on fresh objects, in reverse order, in the same by then well used process reproduces the history's result; O1/O3 canary operations spliced into every history equal their reference computed alone in a fork of an import-only process; O1/O3-cross every lifetime is run twice with its histories in opposite order and every operation must give the same result after both pasts (differences are arbitrated by a freshly forked reference). A clean batch is evidence, not proof.",
    "Trusts: the fingerprint covers the observable state the property lists; fork of an import-only process == fresh interpreter (cross-checked on a sample each batch); hash seed, sympy cache size and ASLR are held equal between history and reference. CPython, sympy, qiskit are real; only the ipykernel marker module and a temp directory are stubs.",
    "deterministic simulation: seeded API-operation histories with fault injection, reference-model oracles"),
  "C08": chk("C08", "DESIGN.md §4, §10",
